@@ -331,10 +331,14 @@ func graphUnits() []Unit {
 		om.OneofField("oo", "ob", 4, M(bm.Full()))
 		om.OneofField("oo", "oe", 5, E(be))
 		om.Field("self", 6, M(om.Full()))
-		a := NewFile("c12/"+id+"/a.proto", "c12."+id, GenRoot+"c12/"+id, "c12/"+id+"/b.proto")
+		// a.proto sorts before b.proto and imports a file of another Go package BEFORE its same-package import
+		a := NewFile("c12/"+id+"/a.proto", "c12."+id, GenRoot+"c12/"+id, "google/protobuf/timestamp.proto", "c12/"+id+"/b.proto")
 		am := a.Msg("AM")
 		am.Field("b", 1, M(bm.Full()))
 		am.Field("e", 2, E(be))
+		am.Field("when", 3, M(".google.protobuf.Timestamp"))
+		am.Rep("es", 4, E(be))
+		am.Map("eb", 5, String, E(be))
 		x := a.Msg("X")
 		y := a.Msg("Y")
 		x.Field("y", 1, M(y.Full()))
